@@ -19,7 +19,7 @@ MNS = 'xmlns="http://www.w3.org/1998/Math/MathML" xmlns:cellml="http://www.cellm
 DIMS = [
     ('structure', ['leaf', 'encapsulated-child', 'child-is-import', 'import-of-import', 'grandchild']),
     ('instances', ['one', 'two-of-the-same']),
-    ('libunits', ['metre', 'lib-mm', 'lib-mm-via-um', 'lib-mm-only-in-cn', 'lib-mm-via-um-via-nm']),
+    ('libunits', ['metre', 'lib-mm', 'lib-mm-via-um', 'lib-mm-only-in-cn', 'lib-mm-via-um-via-nm', 'lib-imports-cm-and-mm-uses-mm-first']),
     ('unitsclash', ['none', 'same-name-same-definition', 'same-name-different-definition', 'root-imports-same-name-different-definition', 'clash-with-child-units',
                     'root-has-the-innermost-library-units-under-another-name']),
     ('compclash', ['none', 'root-component-named-like-child', 'root-component-named-like-reference', 'root-child-named-like-import']),
@@ -73,6 +73,10 @@ def build(case):
     elif lu in ('lib-mm', 'lib-mm-only-in-cn'):
         lib1_units.append(units_xml('mm', 'metre', prefix='milli'))
         xu, xs = ('mm', 1e-3) if lu == 'lib-mm' else ('metre', 1.0)
+    elif lu == 'lib-imports-cm-and-mm-uses-mm-first':
+        # the library itself imports two non-equivalent units (declared cm, mm) and its component uses them in the other order
+        lib1_units.append('<import %s xlink:href="ulib3.cellml"><units name="cm" units_ref="centi_m"/><units name="mm" units_ref="milli_m"/></import>' % XL)
+        xu, xs = 'mm', 1e-3
     elif lu == 'lib-mm-via-um-via-nm':  # a reference chain of depth 3: mm = 1000 um, um = 1000 nm, nm = nano metre
         lib1_units.append(units_xml('nm', 'metre', prefix='nano'))
         lib1_units.append(units_xml('um', 'nm', multiplier='1000'))
@@ -103,6 +107,9 @@ def build(case):
         else:
             eq = '<apply><eq/><ci>y</ci><apply><plus/><apply><times/>%s<ci>x</ci></apply>%s</apply></apply>' % (cnu(2.0, 'dimensionless'), cnu(1.0, cn_units))
         extra = ''
+        if lu == 'lib-imports-cm-and-mm-uses-mm-first':
+            vs.append('<variable name="p" units="cm" interface="public"/>')
+            eq += '<apply><eq/><ci>p</ci>%s</apply>' % cnu(4.0, 'cm')
         if case['mathblocks'] == 'two':
             # a second <math> element that does not mention any units that flattening may have to rename
             vs.append('<variable name="q" units="%s" interface="public"/>' % xu)
@@ -157,6 +164,8 @@ def build(case):
         if st == 'grandchild':
             u1.append(units_xml('dm_g', 'metre', prefix='deci'))
         lib['lib1.cellml'] = '<?xml version="1.0"?><model %s name="lib1">%s%s%s%s</model>' % (NS, ''.join(u1), ''.join(lib1), conns1, enc1)
+    if lu == 'lib-imports-cm-and-mm-uses-mm-first':
+        lib['ulib3.cellml'] = '<?xml version="1.0"?><model %s name="ulib3">%s%s</model>' % (NS, units_xml('centi_m', 'metre', prefix='centi'), units_xml('milli_m', 'metre', prefix='milli'))
     # ---- ground truth for one instance fed with a (metres)
     def f(a_m):
         x = a_m / xs               # value of x in its units
